@@ -177,9 +177,14 @@ pub fn run_sharded(
         children.push(child);
     }
     let mut results = vec![];
+    let pids: Vec<u32> = children.iter().map(|c| c.id()).collect();
     for (s, child) in children.into_iter().enumerate() {
         let out = child.wait_with_output().unwrap_or_else(|e| machinery_error(&format!("shard {s}: {e}")));
         if !out.status.success() {
+            // the other shards stop with this one (their executions follow: PR_SET_PDEATHSIG)
+            for p in &pids {
+                unsafe { libc::kill(*p as i32, libc::SIGKILL) };
+            }
             machinery_error(&format!("shard {s} of {label} exited with {:?}", out.status));
         }
         for line in String::from_utf8_lossy(&out.stdout).lines() {
